@@ -185,6 +185,9 @@ Record robs := mkObs {
   b_err : Z;                    (* error class of syncCronJob *)
   b_last_after : option Z;      (* in-memory status.lastScheduleTime after *)
   b_upd : bool;                 (* syncCronJob asked for a status update *)
+  b_lagged : bool;              (* the job lister of this reconcile was an older snapshot *)
+  b_known : list Z;             (* UIDs of the jobs this controller started or adopted in the history,
+                                   or was handed in the initial status.active *)
 }.
 
 Definition count_phase (p : phase) (jobs : list job) : Z :=
@@ -233,6 +236,57 @@ Definition law_adoption (o : robs) : bool :=
         end
     end) (b_conflicts o).
 
+(* Forbid in the live-run form, judged on the API SERVER's jobs at the time of
+   the reconcile: a job is started only when no run this controller started
+   (or adopted, or was handed) is still unfinished on the server.  Orphans
+   somebody else planted are report-only in the code and are not counted. *)
+Definition live_known (o : robs) : list job :=
+  filter (fun j => match j_owner j with OwnThis => true | _ => false end &&
+                   negb (finished (j_phase j)) && mem (j_uid j) (b_known o) &&
+                   negb (mem (j_name j) (map fst (b_deletes o)))) (b_jobs o).
+
+Definition law_forbid_live (o : robs) : bool :=
+  match c_policy (b_spec o), b_creates o with
+  | Forbid, (nm, _) :: _ =>
+    match live_known o with [] => true | _ => false end &&
+    (* and, as the code sees it: no run referenced by the status it started from is still
+       unfinished, and the new job is the only reference afterwards *)
+    forallb (fun r => match find_job (b_jobs o) (r_name r) with
+                      | Some j => negb (j_uid j =? r_uid r) || finished (j_phase j) ||
+                                  mem (r_name r) (map fst (b_deletes o))   (* removed by this reconcile *)
+                      | None => true end) (b_active o) &&
+    match b_active_after o with [r] => r_name r =? nm | _ => false end
+  | _, _ => true
+  end.
+
+(* history limits delete only finished runs (law 123), judged on the API
+   server's jobs: a Delete the controller issues without having fetched the job
+   (removeOldestJobs) hits a finished run of this CronJob - Completed or Failed,
+   and no more of them than exceed the limit, when the lister is current; any
+   finished phase and no count when the lister lags (it may show an older phase
+   and jobs that are gone); a fetched Delete is the Replace policy's *)
+Definition law_deletes (o : robs) : bool :=
+  let sp := b_spec o in
+  forallb (fun d : Z * bool =>
+    let '(nm, fetched) := d in
+    match find_job (b_jobs o) nm with
+    | Some j =>
+      if fetched then
+        match c_policy sp with
+        | Replace => existsb (fun r => r_name r =? nm) (b_active o) && negb (c_suspend sp)
+        | _ => false end
+      else
+        match j_owner j, j_phase j with
+        | OwnThis, PhCompleted => true
+        | OwnThis, PhFailed => true
+        | OwnThis, PhTerminated => b_lagged o
+        | _, _ => false
+        end
+    | None => true   (* answered NotFound (a lagging lister still showed the job): nothing is deleted *)
+    end) (b_deletes o) &&
+  (b_lagged o ||
+   (within_limit (c_succ_limit sp) PhCompleted o && within_limit (c_fail_limit sp) PhFailed o)).
+
 Definition law_reconcile (tbl : list Z) (o : robs) : bool :=
   let sp := b_spec o in
   (* never while suspended; at most one start per reconcile *)
@@ -247,34 +301,6 @@ Definition law_reconcile (tbl : list Z) (o : robs) : bool :=
     (nm =? Z.quot (t / sec) 60) &&
     match b_last o with Some l => l <? t | None => true end &&
     (negb (is_some (find_job (b_jobs o) nm)) || mem nm (map fst (b_deletes o)))) (b_creates o) &&
-  (* Forbid: a start only when no referenced run is still unfinished *)
-  match c_policy sp, b_creates o with
-  | Forbid, (nm, _) :: _ =>
-    forallb (fun r => match find_job (b_jobs o) (r_name r) with
-                      | Some j => negb (j_uid j =? r_uid r) || finished (j_phase j)
-                      | None => true end) (b_active o) &&
-    match b_active_after o with [r] => r_name r =? nm | _ => false end
-  | _, _ => true
-  end &&
-  (* deletions: finished runs of this CronJob beyond the history limits, or -
-     under Replace, and only together with a start attempt - the active runs *)
-  forallb (fun d : Z * bool =>
-    let '(nm, fetched) := d in
-    match find_job (b_jobs o) nm with
-    | Some j =>
-      if fetched then
-        match c_policy sp with
-        | Replace => existsb (fun r => r_name r =? nm) (b_active o) && negb (c_suspend sp)
-        | _ => false end
-      else
-        match j_owner j, j_phase j with
-        | OwnThis, PhCompleted => true
-        | OwnThis, PhFailed => true
-        | _, _ => false
-        end
-    | None => false
-    end) (b_deletes o) &&
-  within_limit (c_succ_limit sp) PhCompleted o && within_limit (c_fail_limit sp) PhFailed o &&
   law_adoption o.
 
 (* a whole history: every schedule point started at most once, in order *)
